@@ -6,11 +6,13 @@
    (shank : a : b : flag per entry), an optional NP2.4_shank key and the sort flag; it returns the
    dictionary of columns (record `geom`) and the index vector.  Domain: at most 384 entries; in the
    geometry-map encoding, coordinates on the site grid (otherwise the model returns None). *)
-From Coq Require Import ZArith List Bool Lia Permutation Sorted Field.
+From Coq Require Import String ZArith List Bool Lia Permutation Sorted Field.
 From IBL.lib Require Import PyInt.
-From IBL.C08 Require Import Model Adc Proofs Canon Scan ScanProofs.
+From IBL.C09 Require Model Grammar.
+From IBL.C08 Require Import Model Adc Proofs Canon Scan ScanProofs File FileProofs.
 Import ListNotations.
 Open Scope Z_scope.
+Module G9 := IBL.C09.Grammar.
 
 (* ---- sorting is a true permutation: each site exactly once ---- *)
 Theorem C08_sort_is_permutation : forall g e sites split t' inds,
@@ -232,6 +234,77 @@ Theorem C08_parse_print_map : forall header sites,
 Proof. exact parse_print_map. Qed.
 Print Assumptions C08_parse_print_map.
 
+(* ---- FILE TEXT -> geometry.  C09's model of read_meta_data (M9.read_meta: universal newlines,
+   splitlines, key=value, tilde removal, numeric conversion, last key wins, the two added keys) composed
+   with the tokeniser and the geometry model.  For every file made of key=value lines over C09's
+   grammar (G9.gram_line: keys without '=' or line breaks; string, decimal-scalar or integer-list
+   values), the geometry derived from the text is the geometry derived from the lines read one by one,
+   the last line carrying a key deciding (text_dict) ---- *)
+Theorem C08_file_text_geometry : forall ls sort,
+  Forall G9.gram_line ls -> G9.serial_lines_ok ls ->
+  geometry_of_file (file_of ls) sort = geometry_of_dict (text_dict ls) sort.
+Proof. intros ls sort. exact (file_geometry ls sort). Qed.
+Print Assumptions C08_file_text_geometry.
+
+(* ---- ... and explicitly: if the last snsShankMap line (or, without any, the last snsGeomMap line)
+   holds a printed non-empty site table, the lines fix probe version v, and the NP2.4_shank line (if
+   any) holds the decimal shank number, the text yields exactly `geometry (gen_of_vers v) e sites split
+   sort` (Outside where that model has no answer: off-grid coordinates, more than 384 entries) ---- *)
+Theorem C08_file_to_geometry : forall ls v e h s sites split sort,
+  Forall G9.gram_line ls -> G9.serial_lines_ok ls ->
+  M9.version (text_dict ls) = Some v ->
+  match e with
+  | ShankMap => last_value kShankMap ls = Some (print_map h (s :: sites))
+  | GeomMap => last_value kShankMap ls = None /\ last_value kGeomMap ls = Some (print_map h (s :: sites))
+  end ->
+  colon_free h -> Forall valid_site (s :: sites) ->
+  last_value kSplit ls = split_text split -> (forall z, split = Some z -> 0 <= z) ->
+  geometry_of_file (file_of ls) sort = of_opt (geometry (gen_of_vers v) e (s :: sites) split sort).
+Proof. exact file_to_geometry. Qed.
+Print Assumptions C08_file_to_geometry.
+
+(* ---- F-C08-b: NPultra geometry maps.  The code adds the 20 um tip offset to y although the NPultra
+   grid has Y0 = 0: for EVERY entry whose z lies on the 6 um pitch the row (z + 20) / 6 is not an
+   integer (the model has no on-grid geometry), so the geometry-map encoding of the canonical NPultra
+   layout does not give the geometry of its shank-map encoding ---- *)
+Theorem C08_npultra_geom_map_refuted :
+  (forall sh x r f sites split srt,
+     geometry NPU GeomMap ((sh, x, 6 * r, f) :: sites) split srt = None) /\
+  (exists sites t, canonical_sites NPU 1 = Some sites /\
+     geometry NPU ShankMap sites None false = Some t /\
+     geometry NPU GeomMap (map (geom_entry NPU) sites) None false = None).
+Proof.
+  split; [exact npultra_geom_none|].
+  pose proof npultra_geom_canonical as H.
+  destruct (canonical_sites NPU 1) as [sites|]; [|discriminate].
+  destruct (geometry NPU ShankMap sites None false) as [t|] eqn:E1; [|discriminate].
+  destruct (geometry NPU GeomMap (map (geom_entry NPU) sites) None false) eqn:E2; [discriminate|].
+  exists sites, t. repeat split; assumption.
+Qed.
+Print Assumptions C08_npultra_geom_map_refuted.
+
+(* ---- the fallback when the metadata hold no site table (outside the property's quantifier; stated
+   so that the behaviour is on record): trace_header(version) with nshank defaulting to 1, identity
+   index, never sorted, never split — hence for NP2.4 a single-shank layout, and for NP2 a geometry
+   that is not in sorted order even though sort=True was requested ---- *)
+Theorem C08_default_geometry :
+  (forall g, geometry_default g = match trace_header g 1 with Some t => Some (t, zrange NC) | None => None end) /\
+  (exists t inds t1 i1, geometry_default NP24 = Some (t, inds) /\ g_shank t = zeros NC /\ inds = zrange NC /\
+     geometry_default NP21 = Some (t1, i1) /\ lexsort t1 <> zrange NC).
+Proof.
+  split; [reflexivity|].
+  pose proof default_facts as H.
+  destruct (geometry_default NP24) as [[t inds]|] eqn:E1; [|discriminate].
+  destruct (geometry_default NP21) as [[t1 i1]|] eqn:E2; [|discriminate].
+  apply andb_true_iff in H as [H H3]. apply andb_true_iff in H as [H1 H2].
+  exists t, inds, t1, i1. repeat split; try (now apply zl_eqb_eq).
+  intros E. rewrite E in H3.
+  assert (R : forall l, zl_eqb l l = true).
+  { induction l as [|a l IH]; [reflexivity|]. cbn. now rewrite Z.eqb_refl, IH. }
+  rewrite R in H3. discriminate.
+Qed.
+Print Assumptions C08_default_geometry.
+
 (* ---- non-vacuity: concrete inputs meeting the hypotheses, with the model's values ---- *)
 Example C08_example_sorted_split :
   geometry NP24 ShankMap [(1, 0, 5, 1); (0, 1, 5, 1); (1, 1, 5, 0); (0, 0, 5, 1)] (Some 1) true
@@ -253,3 +326,14 @@ Example C08_example_parse :
   = Some [(0, 1, 5, 1); (12, 0, 7, 0)] /\
   parse_map [40;48;58;49;58;58;49;41] = None.
 Proof. vm_compute. split; reflexivity. Qed.
+
+(* a whole file: CR LF line ends are outside file_of (covered by M9.univ_nl in the run), tilde keys,
+   a repeated key (the last one wins), a split key *)
+Example C08_example_file :
+  geometry_of_file (M9.lit "imDatPrb_type=24
+~snsShankMap=(4,2,640)(0:0:9:1)
+snsShankMap=(4,2,640)(1:0:5:1)(0:1:5:1)(1:1:5:0)(0:0:5:1)
+NP2.4_shank=1
+"%string) true
+  = Geometry (mkgeom [1; 1] [1; 0] [5; 5] [0; 1] [59; 27] [95; 95] [1; 0] [0; 0] [1; 0]) [1; 0].
+Proof. vm_compute. reflexivity. Qed.
